@@ -5,6 +5,21 @@ PY = "PYTHONPATH=/repo:/verif /venv/bin/python -m pv.run"
 
 # id -> (technique, level text, level note, design ref)
 CHECKS = {
+    "C01": (
+        "differential PBT: GLRParser vs an independent Earley recogniser over the token DAG; full derivation check of enumerated trees; exhaustive short inputs per generated grammar",
+        "Exploration: for every generated productive grammar (incl. cyclic, nullable, hidden-recursive; lexicons with and without overlap; LALR and SLR) every token string up to 4-5 tokens with generated layout is parsed; acceptance must equal membership decided by an independent Earley recogniser, the only exception allowed is parglare.SyntaxError, every packed alternative must be a production application and every enumerated tree a derivation of the input; parses run under a step budget.",
+        "Trusted: pv/ref_chart.py, pv/trees.py. Known finding D1 (derivations lost on grammars whose LR automaton has a goto cycle over nullable non-terminals) is excluded by signature for the 'rejects a sentence' direction only. Inputs <= 5 tokens; grammars <= 4 non-terminals.",
+        "DESIGN.md section 6/C01"),
+    "C02": (
+        "differential PBT: set of trees expanded from the GLR forest vs exhaustive reference derivation enumeration on the token DAG",
+        "Exploration: for every generated acyclic grammar and every sentence up to 5-6 tokens the set of trees represented by the forest (own expansion of the packed structure) must contain every derivation enumerated by an independent chart procedure; for very ambiguous sentences counts are compared.",
+        "Trusted: pv/ref_chart.py derivation enumerator. Known finding D1 excluded by the validated signature (nullable goto cycle AND missing derivation); such grammars are still generated and counted.",
+        "DESIGN.md section 6/C02"),
+    "C03": (
+        "PBT with independent counters/expansion over the packed forest plus reference derivation counts; generated in-range, boundary and out-of-range indices",
+        "Exploration: for every sentence of every generated grammar, len/solutions/ambiguities/iteration/lazy+non-lazy indexing/get_first_tree/to_str and indices >= len are checked against own counters and an own expansion of the packed structure, and against the reference number of derivations; LoopError must imply infinite ambiguity per the reference.",
+        "Trusted: pv/trees.py counters, pv/ref_chart.py. Known finding D2 (duplicate packing) relaxes only the distinctness/len==derivations/ambiguities clauses for forests that contain an identical duplicate alternative; D1 relaxes only 'fewer trees than derivations' on its signature.",
+        "DESIGN.md section 6/C03"),
     "C05": (
         "differential PBT against an own canonical-LR(1)/LALR(1) construction; exhaustive tiny-grammar enumeration + Hypothesis random grammars; sys.monitoring line budget for termination",
         "Exploration: every generated productive grammar (exhaustive tiny space, random small/medium, pinned classics) x {LALR,SLR} x {main,LAYOUT start} is built under a reference-derived step budget and the resulting automaton is simulated against an independently constructed canonical LR(1) automaton (no action/goto missing), LALR reductions are checked to lie inside reference LALR(1) lookaheads, and reported conflicts must be reference conflicts. Holds on everything explored; no absence claim beyond the explored sizes.",
